@@ -58,6 +58,7 @@ var nestedRegexPool = []string{`label`, `undefined`, `is not defined`, `^job `, 
 type nfile struct {
 	Inner bool   `json:"inner"`
 	Rel   string `json:"rel"` // slash path relative to the root of the repository containing it
+	Upper bool   `json:"upper,omitempty"` // the repository nested/INNER: its root differs from nested/inner in letter case only
 }
 
 type nspec struct {
@@ -66,12 +67,15 @@ type nspec struct {
 	Files    []nfile      `json:"files"`
 	Outer    []pathsEntry `json:"outer_paths"`
 	Inner    []pathsEntry `json:"inner_paths"`
+	Upper    []pathsEntry `json:"upper_paths,omitempty"`
 	OuterCfg bool         `json:"outer_config"`
 	InnerCfg bool         `json:"inner_config"`
+	UpperCfg bool         `json:"upper_config,omitempty"`
 	CLI      []string     `json:"cli_ignore"`
 }
 
 func (l *layout) innerRoot() string { return filepath.Join(l.root, filepath.FromSlash(innerRel)) }
+func (l *layout) upperRoot() string { return filepath.Join(l.root, "nested", "INNER") }
 
 func (l *layout) mkInner() {
 	for _, d := range []string{".git", ".github/workflows"} {
@@ -80,9 +84,19 @@ func (l *layout) mkInner() {
 	for rel, c := range innerContent {
 		hx.Must(os.WriteFile(filepath.Join(l.innerRoot(), rel), []byte(c), 0o644))
 	}
+	// a sibling repository whose root differs in letter case only (a case-sensitive file system)
+	for _, d := range []string{".git", ".github/workflows"} {
+		hx.Must(os.MkdirAll(filepath.Join(l.upperRoot(), d), 0o755))
+	}
+	for rel, c := range innerContent {
+		hx.Must(os.WriteFile(filepath.Join(l.upperRoot(), rel), []byte(c), 0o644))
+	}
 }
 
 func (l *layout) nabs(f nfile) string {
+	if f.Upper {
+		return filepath.Join(l.upperRoot(), filepath.FromSlash(f.Rel))
+	}
 	if f.Inner {
 		return filepath.Join(l.innerRoot(), filepath.FromSlash(f.Rel))
 	}
@@ -116,7 +130,7 @@ func (l *layout) nargs(s *nspec) []string {
 }
 
 func (l *layout) nwriteCfg(s *nspec) {
-	for _, root := range []string{l.root, l.innerRoot()} {
+	for _, root := range []string{l.root, l.innerRoot(), l.upperRoot()} {
 		for _, n := range []string{"actionlint.yaml", "actionlint.yml"} {
 			os.Remove(filepath.Join(root, ".github", n))
 		}
@@ -126,6 +140,9 @@ func (l *layout) nwriteCfg(s *nspec) {
 	}
 	if s.InnerCfg {
 		must(os.WriteFile(filepath.Join(l.innerRoot(), ".github", "actionlint.yaml"), []byte(cfgText(s.Inner)), 0o644))
+	}
+	if s.UpperCfg {
+		must(os.WriteFile(filepath.Join(l.upperRoot(), ".github", "actionlint.yaml"), []byte(cfgText(s.Upper)), 0o644))
 	}
 }
 
@@ -179,7 +196,9 @@ func (l *layout) nexpected(s *nspec, base map[nfile][]ndiag) ([]ndiag, int) {
 	var want []ndiag
 	for i, f := range s.Files {
 		paths, has := s.Outer, s.OuterCfg
-		if f.Inner {
+		if f.Upper {
+			paths, has = s.Upper, s.UpperCfg
+		} else if f.Inner {
 			paths, has = s.Inner, s.InnerCfg
 		}
 		for _, d := range base[f] {
@@ -231,10 +250,10 @@ func (l *layout) nbaseline() map[nfile][]ndiag {
 	base := map[nfile][]ndiag{}
 	var all []nfile
 	for _, f := range wfFiles {
-		all = append(all, nfile{false, f})
+		all = append(all, nfile{Rel: f})
 	}
 	for _, f := range innerFiles {
-		all = append(all, nfile{true, f})
+		all = append(all, nfile{Inner: true, Rel: f}, nfile{Rel: f, Upper: true})
 	}
 	for _, f := range all {
 		s := &nspec{CwdKind: "unrelated", Spelling: "absolute", Files: []nfile{f}}
@@ -250,7 +269,9 @@ func (l *layout) evalNested(s *nspec, base map[nfile][]ndiag) *nfailure {
 	want, wantEx := l.nexpected(s, base)
 	order := ""
 	for _, f := range s.Files {
-		if f.Inner {
+		if f.Upper {
+			order += "u"
+		} else if f.Inner {
 			order += "i"
 		} else {
 			order += "o"
@@ -280,10 +301,10 @@ func genNested(r *hx.Rng) *nspec {
 	s := &nspec{CwdKind: r.Pick([]string{"root", "parent", "nested", "unrelated", "grandparent"}), Spelling: r.Pick([]string{"relative", "dot", "absolute"})}
 	var pool []nfile
 	for _, f := range wfFiles[:2] {
-		pool = append(pool, nfile{false, f})
+		pool = append(pool, nfile{Rel: f})
 	}
 	for _, f := range innerFiles {
-		pool = append(pool, nfile{true, f})
+		pool = append(pool, nfile{Inner: true, Rel: f}, nfile{Rel: f, Upper: true})
 	}
 	perm := r.Perm(len(pool))
 	n := 2 + r.Intn(3)
@@ -311,6 +332,10 @@ func genNested(r *hx.Rng) *nspec {
 	}
 	if s.InnerCfg {
 		s.Inner = gen()
+	}
+	s.UpperCfg = r.Chance(3, 4)
+	if s.UpperCfg {
+		s.Upper = gen()
 	}
 	if r.Chance(1, 5) {
 		s.CLI = []string{r.Pick(nestedRegexPool)}
@@ -344,7 +369,7 @@ func (l *layout) coqNCase(s *nspec, base map[nfile][]ndiag, msgs []string, got [
 		}
 		fruns = append(fruns, fmt.Sprintf("mkFrun %s %s", hx.CoqStr(fileArgs[i]), hx.CoqList(es)))
 		abs := l.nabs(f)
-		for _, root := range []string{l.root, l.innerRoot(), cwd} {
+		for _, root := range []string{l.root, l.innerRoot(), l.upperRoot(), cwd} {
 			if r, err := filepath.Rel(root, abs); err == nil {
 				cands = append(cands, filepath.ToSlash(r))
 			}
@@ -378,6 +403,7 @@ func (l *layout) coqNCase(s *nspec, base map[nfile][]ndiag, msgs []string, got [
 	repos := []string{
 		fmt.Sprintf("(%s, %s)", hx.CoqStr(l.root), section(s.Outer, s.OuterCfg, 0)),
 		fmt.Sprintf("(%s, %s)", hx.CoqStr(l.innerRoot()), section(s.Inner, s.InnerCfg, 100)),
+		fmt.Sprintf("(%s, %s)", hx.CoqStr(l.upperRoot()), section(s.Upper, s.UpperCfg, 200)),
 	}
 	var cli []string
 	for _, p := range s.CLI {
